@@ -6,11 +6,11 @@ package main
 // fed by an I/O error, is a violation.
 
 import (
-	"strings"
 	"fmt"
 	"go/token"
 	"go/types"
 	"sort"
+	"strings"
 
 	"golang.org/x/tools/go/ssa"
 )
@@ -24,15 +24,15 @@ type pnEntry struct {
 // "<function>:assert#<ordinal>" (ordinal in source order within the function).
 var pnTable = map[string]pnEntry{
 	// ---- reader cone ----
-	"(*lzma.decoder).Read:panic#1":            {"guarded by err != nil of decoderDict.Read, which never fails (computed)", "neverfail"},
-	"(*lzma.decoder).apply:panic#1":           {"type switch default: every concrete type ever converted to lzma.operation is a case", "typeswitch"},
-	"(*lzma.decoderDict).writeMatch:panic#1":  {"d.buf.Write cannot fail: the space guard `length > d.buf.Available()` returned before (OB-C11 writeMatch-space)", ""},
-	"(*lzma.literalCodec).init:panic#1":       {"lc outside 0..8: no path for lc in 0..8; properties come from PropertiesForCode (CE-PROPS: lc = b%9) or pass Properties.verify", "param-range"},
-	"(*lzma.literalCodec).init:panic#2":       {"lp outside 0..4: no path for lp in 0..4; properties come from PropertiesForCode (CE-PROPS: lp = b/9%5) or pass Properties.verify", "param-range"},
-	"lzma.headerLen:panic#1":                  {"all 7 chunk types return before it (CE-CTRL headerLen:7); callers pass headerChunkType results or w.ctype, whose stores are chunk type constants", "ce-headerlen"},
-	"lzma.makeProbTree:panic#1":               {"bits outside 1..32: all callers are the codec init functions, which complete without panic (CE)", "ce-init"},
-	"xz.readIndexBody:assert#1":               {"lzma.ByteReader returns either its io.Reader argument or a *breader embedding it: both implement io.Reader", "assert"},
-	"xz.readIndexBody:assert#2":               {"as assert#1", "assert"},
+	"(*lzma.decoder).Read:panic#1":           {"guarded by err != nil of decoderDict.Read, which never fails (computed)", "neverfail"},
+	"(*lzma.decoder).apply:panic#1":          {"type switch default: every concrete type ever converted to lzma.operation is a case", "typeswitch"},
+	"(*lzma.decoderDict).writeMatch:panic#1": {"d.buf.Write cannot fail: the space guard `length > d.buf.Available()` returned before (OB-C11 writeMatch-space)", ""},
+	"(*lzma.literalCodec).init:panic#1":      {"lc outside 0..8: no path for lc in 0..8; properties come from PropertiesForCode (CE-PROPS: lc = b%9) or pass Properties.verify", "param-range"},
+	"(*lzma.literalCodec).init:panic#2":      {"lp outside 0..4: no path for lp in 0..4; properties come from PropertiesForCode (CE-PROPS: lp = b/9%5) or pass Properties.verify", "param-range"},
+	"lzma.headerLen:panic#1":                 {"all 7 chunk types return before it (CE-CTRL headerLen:7); callers pass headerChunkType results or w.ctype, whose stores are chunk type constants", "ce-headerlen"},
+	"lzma.makeProbTree:panic#1":              {"bits outside 1..32: all callers are the codec init functions, which complete without panic (CE)", "ce-init"},
+	"xz.readIndexBody:assert#1":              {"lzma.ByteReader returns either its io.Reader argument or a *breader embedding it: both implement io.Reader", "assert"},
+	"xz.readIndexBody:assert#2":              {"as assert#1", "assert"},
 	// ---- writer cone ----
 	"(*lzma.Writer).writeHeader:assert#1":            {"w.bw is the sink itself (an io.Writer that also is an io.ByteWriter) or a *bufio.Writer", "assert"},
 	"(*lzma.Writer2).Write:panic#1":                  {"written() < maxUncompressed: a chunk is flushed as soon as the budget m = maxUncompressed - written() is used up (k == m); numeric invariant, argued not decided", ""},
